@@ -751,10 +751,11 @@ Definition foldable_array (e : expr) : bool :=
 Definition wt_node (n : expr) : bool :=
   (negb (intlike n) || is_lit n || kint n) && (is_call n || forallb lit_child_ok (children n)).
 
-(* integer literals passed to a ConstExpr function keep the static type int *)
+(* integer literals passed to a ConstExpr function keep the static type int; the call is an ordinary
+   (reflect) call, not the fast path for func(...interface{}) interface{} *)
 Definition cx_node (cn : list string) (n : expr) : bool :=
   match n with
-  | EFunction _ name args _ => negb (is_const_fn cn name) || forallb lit_child_ok args
+  | EFunction _ name args fast => negb (is_const_fn cn name) || (negb fast && forallb lit_child_ok args)
   | _ => true
   end.
 
@@ -900,7 +901,11 @@ Definition pair_rel (e' e : expr) : Prop :=
   | _, _ => False
   end.
 
-Definition esim (e' e : expr) : Prop := esim0 e' e /\ pair_rel e' e.
+(* an array literal on the optimized side stands for an array literal with related elements *)
+Definition arr_rel (e' e : expr) : Prop :=
+  forall aa es', e' = EArray aa es' -> exists es, e = EArray aa es /\ Forall2 esim0 es' es.
+
+Definition esim (e' e : expr) : Prop := esim0 e' e /\ pair_rel e' e /\ arr_rel e' e.
 
 Definition rel1 (n' n : expr) : Prop := exists cs, n' = rebuild n cs /\ Forall2 esim cs (children n).
 
@@ -929,7 +934,7 @@ Lemma ev_pairs_sim ctx here ps' ps : Forall2 esim ps' ps -> forall s' s k' k, ss
 Proof.
   induction 1 as [|p' p r' r Hp Hr IH]; intros s' s k' k S Hk.
   - cbn. apply Hk; exact S.
-  - rewrite !ev_pairs_cons. destruct Hp as [_ Hp]. unfold pair_rel in Hp.
+  - rewrite !ev_pairs_cons. destruct Hp as [_ [Hp _]]. unfold pair_rel in Hp.
     destruct (as_pair p') as [[k1' v1']|], (as_pair p) as [[k1 v1]|]; try contradiction.
     + destruct Hp as [Hk1 Hv1]. apply rbind_sim; [apply Hk1; exact S|]. intros vk t' t St.
       apply rbind_sim; [apply Hv1; exact St|]. intros vv u' u Su. apply IH; [exact Su|].
@@ -1126,7 +1131,8 @@ Proof.
         destruct (intlike (rebuild n cs)) eqn:I; [|reflexivity]. rewrite (rebuild_intlike _ _ H I) in G1. exact G1.
       * destruct (is_call n); [reflexivity|]. cbn [orb] in *. eapply children_lit_ok; eauto.
     + clear Gw Gnf Hnf. unfold cx_node in *. prep_children H n; cbn [rebuild]; auto.
-      destruct (is_const_fn cn name); [|reflexivity]. cbn [negb orb] in *. eapply children_lit_ok; eauto.
+      destruct (is_const_fn cn name); [|reflexivity]. cbn [negb orb] in *.
+      apply andb_prop in Gx. destruct Gx as [Gx1 Gx2]. rewrite Gx1. cbn [andb]. eapply children_lit_ok; eauto.
   - destruct (foldable_array (rebuild n cs)) eqn:F; [|reflexivity]. rewrite (rebuild_foldable _ _ H F) in Gf. discriminate.
   - rewrite (rebuild_children_eq _ _ H). exact Gcs.
 Qed.
@@ -1212,7 +1218,7 @@ Qed.
 
 Lemma rel1_esim n' n : rel1 n' n -> esim n' n.
 Proof.
-  intros (cs & -> & H). split; [constructor|].
+  intros (cs & -> & H). split; [constructor|split].
   - unfold kind_of. rewrite (rebuild_ann _ _ H). reflexivity.
   - apply rebuild_intlike; exact H.
   - apply rebuild_strlike; exact H.
@@ -1224,6 +1230,8 @@ Proof.
     destruct (as_pair n) as [[k v]|].
     + destruct P as (k' & v' & _ & -> & Ek & Ev). split; [exact (proj1 Ek)|exact (proj1 Ev)].
     + rewrite P. exact I.
+  - intros aa es' E. clear -H E. prep_children H n; cbn [rebuild] in E; try discriminate.
+    inversion E; subst. eexists. split; [reflexivity|]. eapply Forall2_weaken; [|exact H]. intros x y Hxy. exact (proj1 Hxy).
 Qed.
 
 Lemma esim_refl : forall e, esim e e.
@@ -1245,10 +1253,15 @@ Qed.
 
 Lemma esim_trans a b c : esim a b -> esim b c -> esim a c.
 Proof.
-  intros [E1 P1] [E2 P2]. split; [eapply esim0_trans; eauto|].
-  unfold pair_rel in *. destruct (as_pair a) as [[k1 v1]|], (as_pair b) as [[k2 v2]|], (as_pair c) as [[k3 v3]|];
-    try contradiction; auto.
-  destruct P1, P2. split; eapply esim0_trans; eauto.
+  intros [E1 [P1 A1]] [E2 [P2 A2]]. split; [eapply esim0_trans; eauto|split].
+  - unfold pair_rel in *. destruct (as_pair a) as [[k1 v1]|], (as_pair b) as [[k2 v2]|], (as_pair c) as [[k3 v3]|];
+      try contradiction; auto.
+    destruct P1, P2. split; eapply esim0_trans; eauto.
+  - intros aa es1 Ea. destruct (A1 _ _ Ea) as (es2 & Eb & F12). destruct (A2 _ _ Eb) as (es3 & Ec & F23).
+    exists es3. split; [exact Ec|]. clear -F12 F23. revert es3 F23.
+    induction F12 as [|x y r1 r2 Hxy Hr IH]; intros es3 F23; inversion F23; subst; constructor.
+    + eapply esim0_trans; eauto.
+    + apply IH; assumption.
 Qed.
 
 End Cong.
@@ -1330,8 +1343,27 @@ Proof.
   apply L. auto.
 Qed.
 
-Lemma esim_nonpair e' e : as_pair e' = None -> as_pair e = None -> esim0 e' e -> esim e' e.
-Proof. intros P1 P2 E. split; [exact E|]. unfold pair_rel. rewrite P1, P2. exact I. Qed.
+Theorem map_post_esim0 (f : visitor) (Site : expr -> Prop) :
+  (forall n' n, rel1 n' n -> Site n -> esim (fst (f n')) n) ->
+  forall e, Forall Site (subterms e) -> esim (fst (map_post f e)) e.
+Proof.
+  intros Hloc. apply (expr_children_ind (fun e => Forall Site (subterms e) -> esim (fst (map_post f e)) e)).
+  intros e IH HS. rewrite map_post_fst. rewrite subterms_children in HS. inversion HS as [|? ? Hs Hsub]; subst.
+  apply Hloc; [|exact Hs].
+  exists (map (fun c => fst (map_post f c)) (children e)). split; [reflexivity|].
+  assert (L : forall l, (forall c, In c l -> In c (children e)) -> Forall2 esim (map (fun c => fst (map_post f c)) l) l).
+  { induction l as [|c r IHr]; intros Hl; cbn [map]; constructor.
+    - apply IH; [apply Hl; left; reflexivity|]. eapply Forall_flat_map; [exact Hsub|apply Hl; left; reflexivity].
+    - apply IHr. intros x Hx. apply Hl. right; exact Hx. }
+  apply L. auto.
+Qed.
+
+Lemma esim_nonpair e' e : as_pair e' = None -> as_pair e = None -> arr_lit e' = None -> esim0 e' e -> esim e' e.
+Proof.
+  intros P1 P2 A E. split; [exact E|split].
+  - unfold pair_rel. rewrite P1, P2. exact I.
+  - intros aa es' ->. discriminate.
+Qed.
 
 Lemma esim_sem_eq e' n' n : (forall ctx s, ev ctx e' s = ev ctx n' s) -> esim n' n -> sem_sim e' n.
 Proof. intros Heq [E _] ctx s' s S. rewrite Heq. apply (es_sem _ _ _ _ _ _ E); exact S. Qed.
@@ -1384,11 +1416,11 @@ Proof.
 Qed.
 
 Lemma leaf_esim e' n :
-  as_pair e' = None -> as_pair n = None -> kind_of e' = kind_of n ->
+  as_pair e' = None -> as_pair n = None -> arr_lit e' = None -> kind_of e' = kind_of n ->
   (intlike e' = true -> intlike n = true) -> (strlike e' = true -> strlike n = true) ->
   is_range e' = false -> simple e' = true -> good cn e' = true -> sem_sim e' n -> esim e' n.
 Proof.
-  intros P1 P2 K I S R Si G M. apply esim_nonpair; [exact P1|exact P2|]. constructor; auto.
+  intros P1 P2 A K I S R Si G M. apply esim_nonpair; [exact P1|exact P2|exact A|]. constructor; auto.
   rewrite R. discriminate.
 Qed.
 
@@ -1397,7 +1429,7 @@ Lemma lit_esim n' n l z' :
   (forall ctx s, ev ctx (EInt (mkAnn l (RKNum KInt)) z') s = ev ctx n' s) ->
   esim (EInt (mkAnn l (RKNum KInt)) z') n.
 Proof.
-  intros Hdef G I L P Heq. apply esim_nonpair; [reflexivity|exact P|]. constructor.
+  intros Hdef G I L P Heq. apply esim_nonpair; [reflexivity|exact P|reflexivity|]. constructor.
   - symmetry. apply good_intlike_kint; assumption.
   - intros _. exact I.
   - discriminate.
@@ -1554,35 +1586,1037 @@ Proof.
   unfold strip at 3. cbn [filter fst]. unfold is_const_fn in C. rewrite C. cbn. rewrite app_nil_r. reflexivity.
 Qed.
 
-Definition Site_cx (n : expr) : Prop :=
-  forall a name args fast, n = EFunction a name args fast -> is_const_fn cn name = true ->
-    fetch_fn fe env name = Ok name /\ (fast = true -> exists sg, fn_sig fe name = Some sg /\ s_fast sg = true).
+(* the run-time environment resolves a ConstExpr name to the function that was marked at compile time *)
+Definition const_fns_resolve : Prop := forall name, is_const_fn cn name = true -> fetch_fn fe env name = Ok name.
 
-Lemma const_expr_local n' n : rel1 n' n -> good cn n = true -> Site_cx n -> esim (fst (const_expr_v fe env cn n')) n.
+Lemma const_expr_local n' n : const_fns_resolve -> rel1 n' n -> good cn n = true -> esim (fst (const_expr_v fe env cn n')) n.
 Proof.
-  intros Hrel G HS. pose proof (rel1_esim _ _ _ _ _ _ Hrel) as Hdef. destruct Hrel as (cs & -> & H).
+  intros HS Hrel G. pose proof (rel1_esim _ _ _ _ _ _ Hrel) as Hdef. destruct Hrel as (cs & -> & H).
   prep_children H n; cbn [rebuild] in *; cbn [const_expr_v]; try exact Hdef.
   destruct (is_const_fn cn name) eqn:C; [|exact Hdef].
   destruct (const_args cs) as [vs|] eqn:A; [|exact Hdef].
   destruct (const_call fe env name vs) as [v|er] eqn:Call; [|exact Hdef].
   cbn [fst patch set_ann ann_of].
   pose proof (es_good _ _ _ _ _ _ (proj1 Hdef) G) as G'.
-  assert (L : forallb lit_child_ok cs = true).
+  assert (L : fast = false /\ forallb lit_child_ok cs = true).
   { apply good_inv in G'. destruct G' as (Gn & _ & _). unfold good_node in Gn. apply andb_prop in Gn. destruct Gn as [Gn _].
-    apply andb_prop in Gn. destruct Gn as [_ Gx]. cbn [cx_node] in Gx. rewrite C in Gx. exact Gx. }
+    apply andb_prop in Gn. destruct Gn as [_ Gx]. cbn [cx_node] in Gx. rewrite C in Gx. cbn [negb orb] in Gx.
+    apply andb_prop in Gx. destruct Gx as [Gx1 Gx2]. apply negb_true_iff in Gx1. auto. }
+  destruct L as [-> L].
   pose proof (const_args_vals _ _ A L) as Hv.
-  destruct (HS a name args fast eq_refl C) as [Hfetch Hfast].
+  pose proof (HS name C) as Hfetch.
   apply leaf_esim; try reflexivity; try discriminate.
   intros ctx s' s S. rewrite ev_const, ev_function.
   destruct (ev_list_inv ctx _ _ H _ Hv s' s
-    (fun vs0 s1 => lift (aloc a) s1 (fetch_fn fe env name) (fun id => do_call fe (aloc a) fast id env vs0 s1)) S) as [B|(s1 & S1 & E)];
+    (fun vs0 s1 => lift (aloc a) s1 (fetch_fn fe env name) (fun id => do_call fe (aloc a) false id env vs0 s1)) S) as [B|(s1 & S1 & E)];
     [apply budget_sim; exact B|]. rewrite E, Hfetch. cbn [lift].
   unfold const_call in Call. unfold do_call. destruct (fn_sig fe name) as [sg|] eqn:Sg; [|discriminate].
   destruct (args_ok (s_ins sg) (s_variadic sg) vs) eqn:Ok; [|discriminate].
   destruct (fn_run fe name env vs) as [v0|] eqn:Run; [|discriminate].
   destruct (s_nout sg =? 0) eqn:N; [discriminate|]. inversion Call; subst v0.
-  destruct fast.
-  - destruct (Hfast eq_refl) as (sg' & Sg' & F). rewrite Sg in Sg'. inversion Sg'; subst sg'. rewrite F.
-    apply rsim_Done. apply ssim_log_const; assumption.
-  - apply rsim_Done. apply ssim_log_const; assumption.
+  apply rsim_Done. apply ssim_log_const; assumption.
+Qed.
+
+(* ---------------- in_array ---------------- *)
+Lemma rbind_sim2 ro ru k' k :
+  ro ≲ ru -> (forall v s' s, ru = Done v s -> ssim cn s' s -> k' v s' ≲ k v s) -> rbind ro k' ≲ rbind ru k.
+Proof.
+  intros H Hk. destruct ru as [v s|e l s]; cbn in H.
+  - destruct H as (v' & s' & -> & <- & S). cbn [rbind]. apply Hk; [reflexivity|exact S].
+  - destruct H as [->|(s' & -> & S)]; cbn [rbind]; [left; reflexivity|]. right. eexists; eauto.
+Qed.
+
+Lemma ev_list_vals ctx es vs : Forall2 evals_to es vs -> forall s k, ev_list fe cfg env ctx es s k = k vs s.
+Proof.
+  induction 1 as [|x v r vr Hx Hr IH]; intros s k; [reflexivity|].
+  rewrite ev_list_cons, Hx. cbn [rbind]. rewrite IH. reflexivity.
+Qed.
+
+Lemma all_ints_const_args es zs : all_ints es = Some zs -> const_args es = Some (map vint zs).
+Proof.
+  revert zs. induction es as [|x r IH]; intros zs H; cbn [all_ints] in H.
+  - inversion H. reflexivity.
+  - destruct x; try discriminate. destruct (all_ints r) as [zr|]; [|discriminate]. inversion H; subst.
+    cbn [const_args map]. rewrite (IH zr eq_refl). reflexivity.
+Qed.
+
+Lemma all_strs_const_args es ss : all_strs es = Some ss -> const_args es = Some (map VStr ss).
+Proof.
+  revert ss. induction es as [|x r IH]; intros ss H; cbn [all_strs] in H.
+  - inversion H. reflexivity.
+  - destruct x; try discriminate. destruct (all_strs r) as [sr|]; [|discriminate]. inversion H; subst.
+    cbn [const_args map]. rewrite (IH sr eq_refl). reflexivity.
+Qed.
+
+Lemma in_array_core a op x aa es' n1 n2 setv lits (P : value -> Prop) :
+  is_in_op op = true -> esim x n1 -> esim (EArray aa es') n2 -> Forall2 evals_to es' lits ->
+  (forall ctx s v t, ev ctx n1 s = Done v t -> P v) ->
+  (forall v, P v -> p_in v setv = p_in v (VArr TIface lits)) ->
+  esim (EBinary a op x (EArray aa es')) (EBinary a op n1 n2) ->
+  esim (EBinary a op x (EConst ann0 setv)) (EBinary a op n1 n2).
+Proof.
+  intros Hop Hx Hr Hl HP Hin Hdef.
+  assert (Oo : is_or op = false) by (destruct op; try discriminate; reflexivity).
+  assert (Oa : is_and op = false) by (destruct op; try discriminate; reflexivity).
+  apply esim_nonpair; [reflexivity|reflexivity|reflexivity|]. constructor.
+  - reflexivity.
+  - destruct op; discriminate.
+  - destruct op; discriminate.
+  - destruct op; discriminate.
+  - intros Hs. cbn [simple] in Hs. apply andb_prop in Hs. destruct Hs as [_ Hs].
+    pose proof (es_simple _ _ _ _ _ _ (proj1 Hr) Hs) as Hc. discriminate.
+  - intros Gn. pose proof (es_good _ _ _ _ _ _ (proj1 Hdef) Gn) as G'.
+    destruct (good_inv _ _ G') as (Gn' & _ & Gc').
+    assert (Lx : lit_child_ok x = true).
+    { pose proof (good_children_lit_ok _ G' eq_refl) as L. cbn [children forallb] in L. apply andb_prop in L. tauto. }
+    assert (Gx : good cn x = true) by (apply Gc'; left; reflexivity).
+    assert (Fx : foldable_array x = false).
+    { unfold good in Gx. apply andb_prop in Gx. destruct Gx as [_ Gx]. apply negb_true_iff in Gx. exact Gx. }
+    apply good_intro.
+    + unfold good_node, wt_node. cbn [children forallb is_call orb]. rewrite Lx, Fx.
+      destruct op; try discriminate; reflexivity.
+    + reflexivity.
+    + intros c [<-|[<-|[]]]; [exact Gx|reflexivity].
+  - intros ctx s' s S. rewrite !ev_binary, Oo, Oa.
+    apply rbind_sim2; [apply (es_sem _ _ _ _ _ _ (proj1 Hx)); exact S|].
+    intros v t' t En1 St. rewrite ev_const. cbn [rbind].
+    pose proof (es_sem _ _ _ _ _ _ (proj1 Hr) ctx t' t St) as Ha.
+    rewrite ev_array, (ev_list_vals ctx _ _ Hl) in Ha. unfold alloc in Ha.
+    destruct (c_limit cfg <=? r_mem t' + Z.of_nat (Datatypes.length lits)) eqn:B.
+    + apply rsim_Stop_inv in Ha. apply budget_sim. apply rbind_budget.
+      destruct Ha as [(l2 & s2 & E)|(s2 & E & _)]; rewrite E; eexists _, _; reflexivity.
+    + apply rsim_Done_inv in Ha. destruct Ha as [(l2 & s2 & E)|(t2 & E & S2)].
+      * apply budget_sim. apply rbind_budget. rewrite E. eexists _, _; reflexivity.
+      * rewrite E. cbn [rbind].
+        assert (St2 : ssim cn t' t2).
+        { destruct S2 as [M2 T2]. cbn [r_mem r_trace] in *. split; [lia|exact T2]. }
+        pose proof (Hin v (HP _ _ _ _ En1)) as Hv.
+        destruct op; try discriminate; cbn [bin_strict]; rewrite Hv;
+          (apply lift_sim; [exact St2|]); intros b; apply rsim_Done; exact St2.
+Qed.
+
+Lemma p_equal_ints a b : p_equal (vint a) (vint b) = Ok (VBool (a =? b)).
+Proof. unfold p_equal, vint. rewrite p_helper_ints by reflexivity. rewrite go_op_int. reflexivity. Qed.
+
+Lemma p_equal_strs a b : p_equal (VStr a) (VStr b) = Ok (VBool (String.eqb a b)).
+Proof. reflexivity. Qed.
+
+Lemma p_in_cons needle t x r :
+  p_in needle (VArr t (x :: r)) =
+  bind (p_equal x needle) (fun e => match e with VBool true => Ok true | VBool false => p_in needle (VArr t r) | _ => Fail EIfaceConv end).
+Proof. reflexivity. Qed.
+
+Lemma p_in_ints z t zs : p_in (vint z) (VArr t (map vint zs)) = Ok (existsb (fun y => y =? z) zs).
+Proof.
+  induction zs as [|y r IH]; [reflexivity|]. cbn [map]. rewrite p_in_cons, p_equal_ints. cbn [bind existsb].
+  destruct (y =? z); [reflexivity|exact IH].
+Qed.
+
+Lemma p_in_strs z t ss : p_in (VStr z) (VArr t (map VStr ss)) = Ok (existsb (fun y => String.eqb y z) ss).
+Proof.
+  induction ss as [|y r IH]; [reflexivity|]. cbn [map]. rewrite p_in_cons, p_equal_strs. cbn [bind existsb].
+  destruct (String.eqb y z); [reflexivity|exact IH].
+Qed.
+
+Lemma existsb_zset_add z a l : existsb (fun y => y =? z) (zset_add a l) = (a =? z) || existsb (fun y => y =? z) l.
+Proof.
+  induction l as [|y r IH]; [reflexivity|]. cbn [zset_add]. destruct (a <? y); [reflexivity|].
+  destruct (Z.eqb_spec a y) as [->|N].
+  - cbn [existsb]. destruct (y =? z); reflexivity.
+  - cbn [existsb]. rewrite IH. destruct (a =? z), (y =? z); reflexivity.
+Qed.
+
+Lemma existsb_zset z zs : existsb (fun y => y =? z) (fold_right zset_add [] zs) = existsb (fun y => y =? z) zs.
+Proof. induction zs as [|a r IH]; [reflexivity|]. cbn [fold_right existsb]. rewrite existsb_zset_add, IH. reflexivity. Qed.
+
+Lemma existsb_sset_add z a l : existsb (fun y => String.eqb y z) (sset_add a l) = String.eqb a z || existsb (fun y => String.eqb y z) l.
+Proof.
+  induction l as [|y r IH]; [reflexivity|]. cbn [sset_add]. destruct (String.compare a y) eqn:C.
+  - apply String.compare_eq_iff in C. subst y. cbn [existsb]. destruct (String.eqb a z); reflexivity.
+  - reflexivity.
+  - cbn [existsb]. rewrite IH. destruct (String.eqb a z), (String.eqb y z); reflexivity.
+Qed.
+
+Lemma existsb_sset z ss : existsb (fun y => String.eqb y z) (fold_right sset_add [] ss) = existsb (fun y => String.eqb y z) ss.
+Proof. induction ss as [|a r IH]; [reflexivity|]. cbn [fold_right existsb]. rewrite existsb_sset_add, IH. reflexivity. Qed.
+
+Lemma assoc_val_ints z l :
+  assoc_val (vint z) (map (fun y => (vint y, unit_val)) l) = if existsb (fun y => y =? z) l then Some unit_val else None.
+Proof.
+  induction l as [|y r IH]; [reflexivity|]. cbn [map assoc_val existsb key_eqb vint num_same]. rewrite kind_eqb_rf. cbn [andb].
+  destruct (y =? z); [reflexivity|exact IH].
+Qed.
+
+Lemma assoc_val_strs z l :
+  assoc_val (VStr z) (map (fun y => (VStr y, unit_val)) l) = if existsb (fun y => String.eqb y z) l then Some unit_val else None.
+Proof.
+  induction l as [|y r IH]; [reflexivity|]. cbn [map assoc_val existsb key_eqb].
+  destruct (String.eqb y z); [reflexivity|exact IH].
+Qed.
+
+(* membership in the lookup map = linear membership in the array, for a left value of exactly kind int / string *)
+Lemma in_array_int_sound z zs t : p_in (vint z) (int_set zs) = p_in (vint z) (VArr t (map vint zs)).
+Proof.
+  rewrite p_in_ints. unfold int_set, p_in. cbn [vint dyn_type num_kind assignable ty_eqb]. rewrite ?kind_eqb_rf. cbn [orb].
+  change (VNum (NInt KInt z)) with (vint z). rewrite assoc_val_ints, existsb_zset. destruct (existsb _ zs); reflexivity.
+Qed.
+
+Lemma in_array_string_sound z ss t : p_in (VStr z) (str_set ss) = p_in (VStr z) (VArr t (map VStr ss)).
+Proof.
+  rewrite p_in_strs. unfold str_set, p_in. cbn [dyn_type assignable ty_eqb orb].
+  rewrite assoc_val_strs, existsb_sset. destruct (existsb _ ss); reflexivity.
+Qed.
+
+Definition Site_ia (n : expr) : Prop :=
+  forall a op n1 n2, n = EBinary a op n1 n2 -> is_in_op op = true ->
+  (forall ctx s v t, ev ctx n1 s = Done v t ->
+     (kind_of n1 = RKNum KInt -> exists z, v = vint z) /\ (kind_of n1 = RKString -> exists str, v = VStr str)) /\
+  (forall aa es c, n2 = EArray aa es -> In c es -> intlike c = true -> kind_of c = RKNum KInt).
+
+Lemma arr_lit_inv x es : arr_lit x = Some es -> exists aa, x = EArray aa es.
+Proof. destruct x; try discriminate. cbn. intros E; inversion E; eauto. Qed.
+
+Lemma lits_from_site es es0 : Forall2 esim0 es es0 ->
+  (forall c, In c es0 -> intlike c = true -> kind_of c = RKNum KInt) -> forallb lit_child_ok es = true.
+Proof.
+  induction 1 as [|c' c r' r Hc Hr IH]; intros HK; [reflexivity|]. cbn [forallb]. apply andb_true_intro. split.
+  - unfold lit_child_ok. destruct (is_lit c') eqn:L; [|reflexivity]. cbn [negb orb]. unfold kint.
+    rewrite (es_kind _ _ _ _ _ _ Hc), (HK c (or_introl eq_refl) (es_int _ _ _ _ _ _ Hc (is_lit_intlike _ L))). reflexivity.
+  - apply IH. intros x Hx. apply HK. right; exact Hx.
+Qed.
+
+Lemma in_array_local n' n : rel1 n' n -> Site_ia n -> esim (fst (in_array_v n')) n.
+Proof.
+  intros Hrel HS. pose proof (rel1_esim _ _ _ _ _ _ Hrel) as Hdef. destruct Hrel as (cs & -> & H).
+  prep_children H n; cbn [rebuild] in *; cbn [in_array_v]; try exact Hdef.
+  destruct (arr_lit x0) as [es|] eqn:A; [|exact Hdef]. apply arr_lit_inv in A. destruct A as (aa & ->).
+  destruct (is_in_op op && negb (is_nil_list es)) eqn:C; [|exact Hdef]. apply andb_prop in C. destruct C as [Cop _].
+  match goal with E : esim (EArray aa es) ?c |- _ => destruct (proj2 (proj2 E) aa es eq_refl) as (es0 & -> & F0) end.
+  destruct (HS _ _ _ _ eq_refl Cop) as [HSv HSk].
+  assert (L : forallb lit_child_ok es = true).
+  { eapply lits_from_site; [exact F0|]. intros c Hc. apply (HSk aa es0 c eq_refl Hc). }
+  match goal with E : esim x ?c |- _ => pose proof (es_kind _ _ _ _ _ _ (proj1 E)) as Kx end.
+  destruct (kind_of x) as [| |k| | | | | | | |] eqn:K; try exact Hdef.
+  - destruct k; try exact Hdef. destruct (all_ints es) as [zs|] eqn:Ai; [|exact Hdef].
+    cbn [fst patch set_ann ann_of].
+    apply (in_array_core a op x aa es _ _ (int_set zs) (map vint zs) (fun v => exists z, v = vint z)); try assumption.
+    + apply const_args_vals; [apply all_ints_const_args; exact Ai|exact L].
+    + intros ctx s v t Ev. destruct (HSv ctx s v t Ev) as [Hi _]. apply Hi. symmetry; exact Kx.
+    + intros v (z & ->). apply in_array_int_sound.
+  - destruct (all_strs es) as [ss|] eqn:As; [|exact Hdef].
+    cbn [fst patch set_ann ann_of].
+    apply (in_array_core a op x aa es _ _ (str_set ss) (map VStr ss) (fun v => exists z, v = VStr z)); try assumption.
+    + apply const_args_vals; [apply all_strs_const_args; exact As|exact L].
+    + intros ctx s v t Ev. destruct (HSv ctx s v t Ev) as [_ Hs]. apply Hs. symmetry; exact Kx.
+    + intros v (z & ->). apply in_array_string_sound.
+Qed.
+
+(* ---------------- in_range ---------------- *)
+Definition stateless (f : rstate -> result) : Prop :=
+  (exists v, forall s, f s = Done v s) \/ (exists er l, forall s, f s = Stop er l s).
+
+Lemma stateless_ext f g : (forall s, f s = g s) -> stateless g -> stateless f.
+Proof. intros E [(v & H)|(er & l & H)]; [left; exists v|right; exists er, l]; intros s; rewrite E; apply H. Qed.
+
+Lemma stateless_Done v : stateless (fun s => Done v s). Proof. left; eauto. Qed.
+Lemma stateless_Stop e l : stateless (fun s => Stop e l s). Proof. right; eauto. Qed.
+
+Lemma stateless_lift {A} l (o : outcome A) (k : A -> rstate -> result) :
+  (forall a, stateless (k a)) -> stateless (fun s => lift l s o (fun a => k a s)).
+Proof. intros H. destruct o; cbn [lift]; [apply H|apply stateless_Stop]. Qed.
+
+Lemma stateless_rbind f (k : value -> rstate -> result) :
+  stateless f -> (forall v, stateless (k v)) -> stateless (fun s => rbind (f s) k).
+Proof.
+  intros [(v & H)|(er & l & H)] Hk.
+  - apply (stateless_ext _ (k v)); [intros s; rewrite H; reflexivity|apply Hk].
+  - apply (stateless_ext _ (fun s => Stop er l s)); [intros s; rewrite H; reflexivity|apply stateless_Stop].
+Qed.
+
+Lemma stateless_bin_strict here op l r va vb :
+  match op with BRange => false | _ => true end = true ->
+  stateless (fun s => bin_strict here fe cfg op l r va vb s).
+Proof.
+  intros Hop. unfold bin_strict.
+  destruct op; try discriminate; try apply stateless_Stop;
+    repeat first [ apply stateless_Done | apply stateless_lift; intros ? ].
+  destruct (both_kind (RKNum KInt) l r); [|destruct (both_kind RKString l r)];
+    repeat first [ apply stateless_Done | apply stateless_lift; intros ? ].
+Qed.
+
+Lemma simple_eval e : simple e = true -> forall ctx, stateless (fun s => ev ctx e s).
+Proof.
+  induction e; intros Hs ctx; cbn [simple] in Hs; try discriminate.
+  - apply stateless_Done.
+  - apply (stateless_ext _ _ (ev_ident fe cfg env ctx a name nilsafe)). apply stateless_lift. intros v. apply stateless_Done.
+  - apply stateless_Done.
+  - apply stateless_Done.
+  - apply stateless_Done.
+  - apply stateless_Done.
+  - apply stateless_Done.
+  - apply (stateless_ext _ _ (ev_unary fe cfg env ctx a op e)). apply stateless_rbind; [apply IHe; exact Hs|].
+    intros v. destruct op; repeat first [ apply stateless_Done | apply stateless_Stop | apply stateless_lift; intros ? ].
+  - apply andb_prop in Hs. destruct Hs as [Hs H2]. apply andb_prop in Hs. destruct Hs as [Hop H1].
+    apply (stateless_ext _ _ (ev_binary fe cfg env ctx a op e1 e2)).
+    destruct (is_or op); [|destruct (is_and op)].
+    + apply stateless_rbind; [apply IHe1; exact H1|]. intros va. apply stateless_lift. intros b.
+      destruct b; [apply stateless_Done|apply IHe2; exact H2].
+    + apply stateless_rbind; [apply IHe1; exact H1|]. intros va. apply stateless_lift. intros b.
+      destruct b; [apply IHe2; exact H2|apply stateless_Done].
+    + apply stateless_rbind; [apply IHe1; exact H1|]. intros va.
+      apply stateless_rbind; [apply IHe2; exact H2|]. intros vb. apply stateless_bin_strict.
+      destruct op; try reflexivity; discriminate.
+  - apply (stateless_ext _ _ (ev_property fe cfg env ctx a e name nilsafe)). apply stateless_rbind; [apply IHe; exact Hs|].
+    intros v. apply stateless_lift. intros r. apply stateless_Done.
+  - apply andb_prop in Hs. destruct Hs as [H1 H2].
+    apply (stateless_ext _ _ (ev_index fe cfg env ctx a e1 e2)). apply stateless_rbind; [apply IHe1; exact H1|].
+    intros v. apply stateless_rbind; [apply IHe2; exact H2|]. intros vi. apply stateless_lift. intros r. apply stateless_Done.
+  - apply (stateless_ext _ _ (ev_pointer fe cfg env ctx a)). destruct ctx as [|[arr i] ?]; [apply stateless_Stop|].
+    apply stateless_lift. intros v. apply stateless_Done.
+  - apply andb_prop in Hs. destruct Hs as [Hs H3]. apply andb_prop in Hs. destruct Hs as [H1 H2].
+    apply (stateless_ext _ _ (ev_cond fe cfg env ctx a e1 e2 e3)). apply stateless_rbind; [apply IHe1; exact H1|].
+    intros vc. apply stateless_lift. intros b. destruct b; [apply IHe2; exact H2|apply IHe3; exact H3].
+Qed.
+
+(* integer kinds for which comparing with an int converts toward int / int64 without wrap-around of
+   the int operand (int8 / int16 / int32 are excluded: known findings C14-rank, C02-in-range-narrow-int) *)
+Definition exact_kind (k : kind) : bool :=
+  match k with KInt8 | KInt16 | KInt32 | KF32 | KF64 => false | _ => true end.
+
+Lemma cmp_exact k z i : exact_kind k = true -> in_range k z = true -> wrap KInt i = i ->
+  p_helper HMoreOrEqual (VNum (NInt k z)) (vint i) = Ok (VBool (i <=? wrap KInt z)) /\
+  p_helper HLessOrEqual (VNum (NInt k z)) (vint i) = Ok (VBool (wrap KInt z <=? i)) /\
+  p_equal (vint i) (VNum (NInt k z)) = Ok (VBool (i =? wrap KInt z)).
+Proof.
+  intros Hk Hz Hi. unfold p_equal, p_helper, vint, helper_num. cbn [num_kind].
+  destruct k; try discriminate; cbn; rewrite ?(wrap_int64 KInt64) by reflexivity; rewrite ?Hi;
+    try (repeat split; reflexivity).
+  - rewrite (wrap_in_range KInt z eq_refl Hz). repeat split; reflexivity.
+  - assert (Hz' : wrap KInt z = z) by (apply (wrap_in_range KInt z eq_refl); exact Hz).
+    rewrite ?Hz'. repeat split; reflexivity.
+Qed.
+
+Lemma p_in_range_list v z' t : (forall i, p_equal (vint i) v = Ok (VBool (i =? z'))) ->
+  forall n lo, p_in v (VArr t (range_list lo n)) = Ok ((lo <=? z') && (z' <? lo + Z.of_nat n)).
+Proof.
+  intros He. induction n as [|n IH]; intros lo.
+  - cbn [range_list]. replace (lo + Z.of_nat 0) with lo by lia.
+    destruct (Z.leb_spec lo z'), (Z.ltb_spec z' lo); try reflexivity; lia.
+  - cbn [range_list]. rewrite p_in_cons, He. cbn [bind]. destruct (Z.eqb_spec lo z') as [->|N].
+    + destruct (Z.leb_spec z' z'), (Z.ltb_spec z' (z' + Z.of_nat (S n))); try reflexivity; lia.
+    + rewrite IH. destruct (Z.leb_spec (lo + 1) z'), (Z.ltb_spec z' (lo + 1 + Z.of_nat n)),
+        (Z.leb_spec lo z'), (Z.ltb_spec z' (lo + Z.of_nat (S n))); try reflexivity; lia.
+Qed.
+
+(* membership in lo..hi = the two-sided comparison, for an integer of an exact kind *)
+Lemma in_range_sound k z lo hi : exact_kind k = true -> in_range k z = true -> wrap KInt lo = lo -> wrap KInt hi = hi ->
+  p_in (VNum (NInt k z)) (make_range lo hi) = Ok ((lo <=? wrap KInt z) && (wrap KInt z <=? hi)) /\
+  p_helper HMoreOrEqual (VNum (NInt k z)) (vint lo) = Ok (VBool (lo <=? wrap KInt z)) /\
+  p_helper HLessOrEqual (VNum (NInt k z)) (vint hi) = Ok (VBool (wrap KInt z <=? hi)).
+Proof.
+  intros Hk Hz Hlo Hhi. split; [|split; [apply (cmp_exact k z lo Hk Hz Hlo)|apply (cmp_exact k z hi Hk Hz Hhi)]].
+  set (z' := wrap KInt z).
+  assert (He : forall i, wrap KInt i = i -> p_equal (vint i) (VNum (NInt k z)) = Ok (VBool (i =? z'))).
+  { intros i Hi. apply (cmp_exact k z i Hk Hz Hi). }
+  unfold make_range. destruct (Z.ltb_spec hi lo) as [L|L].
+  - cbn. destruct (Z.leb_spec lo z'), (Z.leb_spec z' hi); try reflexivity; lia.
+  - (* every element of the range is within int64, so He applies: generalise p_in_range_list to bounded i *)
+    assert (G : forall n l, lo <= l -> l + Z.of_nat n <= hi + 1 ->
+              p_in (VNum (NInt k z)) (VArr (TNum KInt) (range_list l n)) = Ok ((l <=? z') && (z' <? l + Z.of_nat n))).
+    { assert (Rlo : in_range KInt lo = true) by (rewrite <- Hlo; apply wrap_range; reflexivity).
+      assert (Rhi : in_range KInt hi = true) by (rewrite <- Hhi; apply wrap_range; reflexivity).
+      unfold in_range in Rlo, Rhi. apply andb_prop in Rlo. apply andb_prop in Rhi.
+      destruct Rlo as [Rlo _]. destruct Rhi as [_ Rhi]. apply Z.leb_le in Rlo. apply Z.leb_le in Rhi.
+      induction n as [|n IH]; intros l H1 H2.
+      - cbn [range_list]. replace (l + Z.of_nat 0) with l by lia.
+        destruct (Z.leb_spec l z'), (Z.ltb_spec z' l); try reflexivity; lia.
+      - cbn [range_list]. rewrite p_in_cons, He.
+        + cbn [bind]. destruct (Z.eqb_spec l z') as [->|N].
+          * destruct (Z.leb_spec z' z'), (Z.ltb_spec z' (z' + Z.of_nat (S n))); try reflexivity; lia.
+          * rewrite IH by lia. destruct (Z.leb_spec (l + 1) z'), (Z.ltb_spec z' (l + 1 + Z.of_nat n)),
+              (Z.leb_spec l z'), (Z.ltb_spec z' (l + Z.of_nat (S n))); try reflexivity; lia.
+        + apply wrap_in_range; [reflexivity|]. unfold in_range. apply andb_true_intro. split; apply Z.leb_le; lia. }
+    rewrite G by (rewrite ?Z2Nat.id; lia). rewrite Z2Nat.id by lia.
+    destruct (Z.leb_spec lo z'), (Z.ltb_spec z' (lo + (hi - lo + 1))), (Z.leb_spec z' hi); try reflexivity; lia.
+Qed.
+
+Lemma iv_idem z : wrap KInt (iv z) = iv z.
+Proof. unfold iv. apply wrap_idem. reflexivity. Qed.
+
+Lemma to_int_vint z : to_int (vint (iv z)) = Ok (iv z).
+Proof. unfold to_int, vint, convert. cbn [is_float]. rewrite iv_idem. reflexivity. Qed.
+
+Lemma range_size_nonneg lo hi n : range_size lo hi = Some n -> 0 <= n.
+Proof.
+  unfold range_size. destruct (Z.ltb_spec hi lo); [intros E; inversion E; lia|].
+  destruct (hi - lo + 1 <=? max_of KInt); intros E; inversion E; lia.
+Qed.
+
+(* a range with literal bounds of kind int: budget failure, or the range value after accounting n >= 0 elements *)
+Lemma ev_range_lit ctx ar af f at_ t s :
+  akind af = RKNum KInt -> akind at_ = RKNum KInt ->
+  ev ctx (EBinary ar BRange (EInt af f) (EInt at_ t)) s =
+  match range_size (iv f) (iv t) with
+  | None => Stop EBudget (aloc ar) s
+  | Some n => alloc cfg (aloc ar) n s (fun s3 => Done (make_range (iv f) (iv t)) s3)
+  end.
+Proof.
+  intros Kf Kt. change (EBinary ar BRange (EInt af f) (EInt at_ t)) with (int_redex ar BRange af f at_ t).
+  rewrite ev_int_redex by reflexivity. cbn [bin_strict].
+  rewrite (int_const_int af KInt f Kf eq_refl), (int_const_int at_ KInt t Kt eq_refl).
+  fold (iv f) (iv t). fold (vint (iv f)) (vint (iv t)). rewrite !to_int_vint. reflexivity.
+Qed.
+
+Lemma range_lit_cases ctx ar af f at_ t s :
+  akind af = RKNum KInt -> akind at_ = RKNum KInt ->
+  is_budget (ev ctx (EBinary ar BRange (EInt af f) (EInt at_ t)) s) \/
+  exists n, 0 <= n /\ range_size (iv f) (iv t) = Some n /\
+    ev ctx (EBinary ar BRange (EInt af f) (EInt at_ t)) s = Done (make_range (iv f) (iv t)) (mkRS (r_mem s + n) (r_trace s)).
+Proof.
+  intros Kf Kt. rewrite (ev_range_lit ctx ar af f at_ t s Kf Kt).
+  destruct (range_size (iv f) (iv t)) as [n|] eqn:R; [|left; eexists _, _; reflexivity].
+  unfold alloc. destruct (c_limit cfg <=? r_mem s + n); [left; eexists _, _; reflexivity|].
+  right. exists n. split; [eapply range_size_nonneg; eauto|]. split; reflexivity.
+Qed.
+
+Lemma budget_left_inv l s' ru : Stop EBudget l s' ≲ ru -> is_budget ru.
+Proof.
+  intros H. apply rsim_Stop_inv in H. destruct H as [(l2 & s2 & E)|(s2 & E & _)]; rewrite E; eexists _, _; reflexivity.
+Qed.
+
+Lemma good_cmp op x al z :
+  match op with BGe | BLe => true | _ => false end = true ->
+  good cn x = true -> lit_child_ok x = true -> akind al = RKNum KInt ->
+  good cn (EBinary ann0 op x (EInt al z)) = true.
+Proof.
+  intros Hop Gx Lx Ka. apply good_intro.
+  - assert (Fx : foldable_array x = false).
+    { unfold good in Gx. apply andb_prop in Gx. destruct Gx as [_ Gx]. apply negb_true_iff in Gx. exact Gx. }
+    unfold good_node, wt_node. cbn [children forallb is_call orb]. rewrite Lx, Fx.
+    unfold lit_child_ok, kint, kind_of. cbn [is_lit negb orb ann_of]. rewrite Ka.
+    destruct op; try discriminate; reflexivity.
+  - reflexivity.
+  - intros c [<-|[<-|[]]]; [exact Gx|reflexivity].
+Qed.
+
+Definition conj_of (a : ann) (x from to : expr) : expr :=
+  EBinary a BAndWord (EBinary ann0 BGe x from) (EBinary ann0 BLe x to).
+
+Lemma in_range_core a op x ar af f at_ t n1 n2 :
+  is_in_op op = true -> esim x n1 -> esim (EBinary ar BRange (EInt af f) (EInt at_ t)) n2 ->
+  simple x = true ->
+  (forall ctx s v s1, ev ctx n1 s = Done v s1 -> exists k z, v = VNum (NInt k z) /\ exact_kind k = true /\ in_range k z = true) ->
+  good cn (EBinary a op x (EBinary ar BRange (EInt af f) (EInt at_ t))) = true ->
+  esim (match op with BNotIn => EUnary a UNotWord (conj_of a x (EInt af f) (EInt at_ t)) | _ => conj_of a x (EInt af f) (EInt at_ t) end)
+       (EBinary a op n1 n2).
+Proof.
+  intros Hop Hx Hr Sx HP G'.
+  destruct (good_inv _ _ G') as (Gn' & _ & Gc').
+  assert (Lx : lit_child_ok x = true).
+  { pose proof (good_children_lit_ok _ G' eq_refl) as L. cbn [children forallb] in L. apply andb_prop in L. tauto. }
+  assert (Gx : good cn x = true) by (apply Gc'; left; reflexivity).
+  assert (Gr : good cn (EBinary ar BRange (EInt af f) (EInt at_ t)) = true) by (apply Gc'; right; left; reflexivity).
+  pose proof (good_children_lit_ok _ Gr eq_refl) as Lr. cbn [children forallb] in Lr.
+  apply andb_prop in Lr. destruct Lr as [Lf Lt]. rewrite andb_true_r in Lt.
+  unfold lit_child_ok in Lf, Lt. cbn [is_lit negb orb] in Lf, Lt. apply kint_eq in Lf. apply kint_eq in Lt.
+  cbn in Lf, Lt.
+  assert (Gconj : good cn (conj_of a x (EInt af f) (EInt at_ t)) = true).
+  { apply good_intro.
+    - reflexivity.
+    - reflexivity.
+    - intros c [<-|[<-|[]]]; apply good_cmp; auto. }
+  assert (Enew : esim0 (match op with BNotIn => EUnary a UNotWord (conj_of a x (EInt af f) (EInt at_ t)) | _ => conj_of a x (EInt af f) (EInt at_ t) end)
+                       (EBinary a op n1 n2)).
+  { constructor.
+    - destruct op; try discriminate; reflexivity.
+    - destruct op; discriminate.
+    - destruct op; discriminate.
+    - destruct op; discriminate.
+    - intros Hs. cbn [simple] in Hs. apply andb_prop in Hs. destruct Hs as [_ Hs].
+      pose proof (es_simple _ _ _ _ _ _ (proj1 Hr) Hs) as Hc. discriminate.
+    - intros _. destruct op; try discriminate; [|exact Gconj].
+      apply good_intro; [reflexivity|reflexivity|]. intros c [<-|[]]. exact Gconj.
+    - intros ctx s' s S.
+      assert (Oo : is_or op = false) by (destruct op; try discriminate; reflexivity).
+      assert (Oa : is_and op = false) by (destruct op; try discriminate; reflexivity).
+      rewrite (ev_binary fe cfg env ctx a op n1 n2), Oo, Oa.
+      pose proof (es_sem _ _ _ _ _ _ (proj1 Hx) ctx s' s S) as Hxs.
+      assert (Conj : forall st, ev ctx (conj_of a x (EInt af f) (EInt at_ t)) st =
+                rbind (ev ctx x st) (fun va s1 => rbind (bin_strict (aloc ann0) fe cfg BGe x (EInt af f) va (vint (iv f)) s1)
+                  (fun vc s2 => lift (aloc a) s2 (as_bool vc) (fun b =>
+                     if b then rbind (ev ctx x s2) (fun vd s3 => bin_strict (aloc ann0) fe cfg BLe x (EInt at_ t) vd (vint (iv t)) s3)
+                     else Done vc s2)))).
+      { intros st. unfold conj_of. rewrite ev_binary. cbn [is_or is_and]. rewrite (ev_binary fe cfg env ctx ann0 BGe).
+        cbn [is_or is_and].
+        destruct (ev ctx x st) as [va s1|er l s1]; cbn [rbind]; [|reflexivity].
+        rewrite ev_int, (int_const_int af KInt f Lf eq_refl). cbn [rbind]. fold (iv f). fold (vint (iv f)).
+        destruct (bin_strict (aloc ann0) fe cfg BGe x (EInt af f) va (vint (iv f)) s1) as [vc s2|? ? ?]; cbn [rbind]; [|reflexivity].
+        destruct (as_bool vc) as [b|]; cbn [lift]; [|reflexivity]. destruct b; [|reflexivity].
+        rewrite (ev_binary fe cfg env ctx ann0 BLe). cbn [is_or is_and].
+        destruct (ev ctx x s2); cbn [rbind]; [|reflexivity].
+        rewrite ev_int, (int_const_int at_ KInt t Lt eq_refl). reflexivity. }
+      destruct (simple_eval x Sx ctx) as [(v & Ev)|(er & l & Ev)].
+      + (* the left operand evaluates to v, twice *)
+        rewrite Ev in Hxs. apply rsim_Done_inv in Hxs. destruct Hxs as [(l2 & s2 & E)|(s1 & E & S1)].
+        * apply budget_sim. rewrite E. eexists _, _; reflexivity.
+        * rewrite E. cbn [rbind]. destruct (HP _ _ _ _ E) as (k & z & -> & Hk & Hz).
+          pose proof (es_sem _ _ _ _ _ _ (proj1 Hr) ctx s' s1 S1) as Hrs.
+          destruct (range_lit_cases ctx ar af f at_ t s' Lf Lt) as [(lb & sb & Eb)|(n & Hn & _ & Er)].
+          -- rewrite Eb in Hrs. apply budget_sim. apply rbind_budget. eapply budget_left_inv; exact Hrs.
+          -- rewrite Er in Hrs. apply rsim_Done_inv in Hrs. destruct Hrs as [(l2 & s2 & E2)|(s2 & E2 & S2)].
+             ++ apply budget_sim. rewrite E2. eexists _, _; reflexivity.
+             ++ rewrite E2. cbn [rbind].
+                assert (St2 : ssim cn s' s2).
+                { destruct S2 as [M2 T2]. cbn [r_mem r_trace] in *. split; [lia|exact T2]. }
+                destruct (in_range_sound k z (iv f) (iv t) Hk Hz (iv_idem f) (iv_idem t)) as (Pin & Pge & Ple).
+                assert (Cv : ev ctx (conj_of a x (EInt af f) (EInt at_ t)) s' =
+                             Done (VBool ((iv f <=? wrap KInt z) && (wrap KInt z <=? iv t))) s').
+                { rewrite Conj, Ev. cbn [rbind bin_strict]. rewrite Pge. cbn [lift rbind as_bool].
+                  destruct (iv f <=? wrap KInt z); cbn [andb]; [|reflexivity].
+                  rewrite Ev. cbn [rbind bin_strict]. rewrite Ple. reflexivity. }
+                destruct op; try discriminate; cbn [bin_strict]; rewrite Pin; cbn [lift].
+                ** rewrite ev_unary, Cv. cbn [rbind lift as_bool]. apply rsim_Done; exact St2.
+                ** rewrite Cv. apply rsim_Done; exact St2.
+      + (* the left operand fails: at the same place in both programs *)
+        rewrite Ev in Hxs. apply rsim_Stop_inv in Hxs. destruct Hxs as [(l2 & s2 & E)|(s1 & E & S1)].
+        * apply budget_sim. rewrite E. eexists _, _; reflexivity.
+        * rewrite E. cbn [rbind].
+          assert (Cv : ev ctx (conj_of a x (EInt af f) (EInt at_ t)) s' = Stop er l s') by (rewrite Conj, Ev; reflexivity).
+          destruct op; try discriminate.
+          -- rewrite ev_unary, Cv. cbn [rbind]. apply rsim_Stop; exact S1.
+          -- rewrite Cv. apply rsim_Stop; exact S1. }
+  apply esim_nonpair; [destruct op; reflexivity|reflexivity|destruct op; reflexivity|exact Enew].
+Qed.
+
+Definition Site_ir (n : expr) : Prop :=
+  forall a op n1 n2, n = EBinary a op n1 n2 -> is_in_op op = true -> is_range n2 = true ->
+    in_range_left_ok (kind_of n1) = true ->
+    simple n1 = true /\
+    forall ctx s v s1, ev ctx n1 s = Done v s1 ->
+      exists k z, v = VNum (NInt k z) /\ exact_kind k = true /\ in_range k z = true.
+
+Lemma range_lit_inv x from to : range_lit x = Some (from, to) ->
+  exists ar af f at_ t, x = EBinary ar BRange (EInt af f) (EInt at_ t) /\ from = EInt af f /\ to = EInt at_ t.
+Proof.
+  destruct x; try discriminate. cbn [range_lit]. destruct op; try discriminate.
+  destruct (int_lit x1) as [[af f]|] eqn:L1; [|discriminate]. destruct (int_lit x2) as [[at_ t]|] eqn:L2; [|discriminate].
+  apply int_lit_inv in L1. apply int_lit_inv in L2. subst. intros E. inversion E; subst. eexists _, _, _, _, _. eauto.
+Qed.
+
+Lemma in_range_local n' n : rel1 n' n -> good cn n = true -> Site_ir n -> esim (fst (in_range_v n')) n.
+Proof.
+  intros Hrel G HS. pose proof (rel1_esim _ _ _ _ _ _ Hrel) as Hdef. destruct Hrel as (cs & -> & H).
+  prep_children H n; cbn [rebuild] in *; cbn [in_range_v]; try exact Hdef.
+  destruct (range_lit x0) as [[from to]|] eqn:R; [|exact Hdef].
+  apply range_lit_inv in R. destruct R as (ar & af & f & at_ & t & -> & -> & ->).
+  destruct (is_in_op op && in_range_left_ok (kind_of x)) eqn:C; [|exact Hdef].
+  apply andb_prop in C. destruct C as [Cop Ck].
+  pose proof (es_good _ _ _ _ _ _ (proj1 Hdef) G) as G'.
+  match goal with E1 : esim x ?c1, E2 : esim (EBinary ar BRange _ _) ?c2 |- _ =>
+    pose proof (es_kind _ _ _ _ _ _ (proj1 E1)) as Kx;
+    pose proof (es_rng _ _ _ _ _ _ (proj1 E2) eq_refl) as Rn;
+    rewrite Kx in Ck; destruct (HS _ _ _ _ eq_refl Cop Rn Ck) as [Sn HP];
+    pose proof (es_simple _ _ _ _ _ _ (proj1 E1) Sn) as Sx;
+    pose proof (in_range_core a op x ar af f at_ t _ _ Cop E1 E2 Sx HP G') as Core
+  end.
+  destruct op; try discriminate; exact Core.
+Qed.
+
+(* ---------------- const_range ---------------- *)
+(* descending ranges never span more than 2^63: the optimizer (like vm.makeRange) computes the
+   size with wrap-around, the reference semantics says "empty when descending" *)
+Definition Site_cr (n : expr) : Prop :=
+  forall a n1 n2, n = EBinary a BRange n1 n2 ->
+  forall ctx s lo s1 hi s2, ev ctx n1 s = Done (vint lo) s1 -> ev ctx n2 s1 = Done (vint hi) s2 -> - 2 ^ 63 <= hi - lo.
+
+Lemma iv_range z : - 2 ^ 63 <= iv z < 2 ^ 63.
+Proof.
+  pose proof (wrap_range KInt z eq_refl) as R. unfold in_range, min_of, max_of in R. cbn in R.
+  apply andb_prop in R. destruct R as [R1 R2]. apply Z.leb_le in R1. apply Z.leb_le in R2. unfold iv. lia.
+Qed.
+
+Lemma const_range_local n' n : rel1 n' n -> good cn n = true -> Site_cr n -> esim (fst (const_range_v n')) n.
+Proof.
+  intros Hrel G HS. pose proof (rel1_esim _ _ _ _ _ _ Hrel) as Hdef. destruct Hrel as (cs & -> & H).
+  prep_children H n; cbn [rebuild] in *; cbn [const_range_v]; try exact Hdef.
+  destruct op; try exact Hdef.
+  destruct (int_lit x) as [[a1 lo]|] eqn:L1; [|exact Hdef]. destruct (int_lit x0) as [[a2 hi]|] eqn:L2; [|exact Hdef].
+  apply int_lit_inv in L1. apply int_lit_inv in L2. subst x x0.
+  pose proof (es_good _ _ _ _ _ _ (proj1 Hdef) G) as G'.
+  pose proof (good_children_lit_ok _ G' eq_refl) as Lr. cbn [children forallb] in Lr.
+  apply andb_prop in Lr. destruct Lr as [Lf Lt]. rewrite andb_true_r in Lt.
+  unfold lit_child_ok in Lf, Lt. cbn [is_lit negb orb] in Lf, Lt. apply kint_eq in Lf. apply kint_eq in Lt. cbn in Lf, Lt.
+  set (size := wrap KInt (iv hi - iv lo + 1)).
+  assert (Sem : forall v, (forall n, range_size (iv lo) (iv hi) = Some n -> make_range (iv lo) (iv hi) = v) ->
+          sem_sim (EConst a v) (EBinary a BRange n1 n2)).
+  { intros v Hv ctx s' s S. rewrite ev_const.
+    pose proof (es_sem _ _ _ _ _ _ (proj1 Hdef) ctx s' s S) as Hs.
+    destruct (range_lit_cases ctx a a1 lo a2 hi s' Lf Lt) as [(lb & sb & Eb)|(n & Hn & Rs & Er)].
+    - rewrite Eb in Hs. apply budget_sim. eapply budget_left_inv; exact Hs.
+    - rewrite Er in Hs. apply rsim_Done_inv in Hs. destruct Hs as [(l2 & s2 & E2)|(s2 & E2 & S2)].
+      + apply budget_sim. rewrite E2. eexists _, _; reflexivity.
+      + rewrite E2, (Hv n Rs). apply rsim_Done. destruct S2 as [M2 T2]. cbn [r_mem r_trace] in *. split; [lia|exact T2]. }
+  (* what the original bounds evaluate to: needed for the no-overflow side condition *)
+  assert (Span : forall ctx s, is_budget (ev ctx (EBinary a BRange n1 n2) s) \/ - 2 ^ 63 <= iv hi - iv lo).
+  { match goal with E1 : esim (EInt a1 lo) n1 |- _ => rename E1 into Hx1 end.
+    match goal with E2 : esim (EInt a2 hi) n2 |- _ => rename E2 into Hx2 end.
+    intros ctx s.
+    pose proof (es_sem _ _ _ _ _ _ (proj1 Hx1) ctx s s (ssim_refl cn s)) as H1.
+    rewrite ev_int, (int_const_int a1 KInt lo Lf eq_refl) in H1. apply rsim_Done_inv in H1.
+    destruct H1 as [(l2 & s2 & E)|(s1 & E & S1)].
+    { left. rewrite ev_binary. cbn [is_or is_and]. rewrite E. eexists _, _; reflexivity. }
+    pose proof (es_sem _ _ _ _ _ _ (proj1 Hx2) ctx s1 s1 (ssim_refl cn s1)) as H2.
+    rewrite ev_int, (int_const_int a2 KInt hi Lt eq_refl) in H2. apply rsim_Done_inv in H2.
+    destruct H2 as [(l2 & s2 & E')|(s2 & E' & S2)].
+    { left. rewrite ev_binary. cbn [is_or is_and]. rewrite E. cbn [rbind]. rewrite E'. eexists _, _; reflexivity. }
+    right. exact (HS _ _ _ eq_refl ctx s _ _ _ _ E E'). }
+  pose proof (iv_range lo) as Rlo. pose proof (iv_range hi) as Rhi.
+  destruct (Z.ltb_spec size 1) as [Sz|Sz].
+  - (* folded to the empty slice *)
+    cbn [fst patch set_ann ann_of]. apply leaf_esim; try reflexivity; try discriminate.
+    intros ctx s' s S. destruct (Span ctx s) as [B|Sp]; [apply budget_sim; exact B|].
+    apply Sem; [|exact S]. intros n Rn. unfold make_range, range_size in *.
+    destruct (Z.ltb_spec (iv hi) (iv lo)) as [D|D]; [reflexivity|].
+    destruct (Z.leb_spec (iv hi - iv lo + 1) (max_of KInt)) as [M|M]; [|discriminate].
+    exfalso. unfold size in Sz. rewrite wrap_in_range in Sz; [lia|reflexivity|].
+    unfold in_range, min_of, max_of in *. cbn in *. apply andb_true_intro. split; apply Z.leb_le; lia.
+  - destruct (Z.ltb_spec range_window size) as [W|W]; [exact Hdef|].
+    cbn [fst patch set_ann ann_of]. apply leaf_esim; try reflexivity; try discriminate.
+    intros ctx s' s S. destruct (Span ctx s) as [B|Sp]; [apply budget_sim; exact B|].
+    apply Sem; [|exact S]. intros n Rn. unfold make_range, range_size in *.
+    destruct (Z.ltb_spec (iv hi) (iv lo)) as [D|D].
+    + exfalso. unfold size in Sz. rewrite wrap_in_range in Sz; [lia|reflexivity|].
+      unfold in_range, min_of, max_of. cbn. apply andb_true_intro. split; apply Z.leb_le; lia.
+    + destruct (Z.leb_spec (iv hi - iv lo + 1) (max_of KInt)) as [M|M]; [|discriminate].
+      unfold size. rewrite wrap_in_range; [reflexivity|reflexivity|].
+      unfold in_range, min_of, max_of in *. cbn in *. apply andb_true_intro. split; apply Z.leb_le; lia.
+Qed.
+
+(* ---------------- the five passes and Optimize ---------------- *)
+Definition sites (P : expr -> Prop) (e : expr) : Prop := Forall P (subterms e).
+
+Theorem pass_in_array_sound e : sites Site_ia e -> esim (pass_in_array e) e.
+Proof. intros HS. unfold pass_in_array. apply (map_post_esim0 _ Site_ia); [|exact HS]. intros n' n R S. apply in_array_local; assumption. Qed.
+
+Theorem pass_fold_sound e e2 : good cn e = true -> pass_fold fe e = OOk e2 -> esim e2 e.
+Proof. intros G H. unfold pass_fold in H. eapply iter_pass_esim; [|exact G|exact H]. intros x Gx. apply fold_walk_esim; exact Gx. Qed.
+
+Theorem pass_const_expr_sound e e3 :
+  const_fns_resolve -> good cn e = true -> pass_const_expr fe env cn e = OOk e3 -> esim e3 e.
+Proof.
+  intros HR G H. unfold pass_const_expr in H. destruct cn as [|c0 cr] eqn:Ecn.
+  - inversion H; subst. apply esim_refl.
+  - rewrite <- Ecn in *. eapply iter_pass_esim; [|exact G|exact H]. intros x Gx.
+    apply (map_post_esim _ (fun _ => True)); [|exact Gx|apply Forall_forall; auto].
+    intros n' n R Gn _. apply const_expr_local; assumption.
+Qed.
+
+Theorem pass_in_range_sound e : good cn e = true -> sites Site_ir e -> esim (pass_in_range e) e.
+Proof.
+  intros G HS. unfold pass_in_range. apply (map_post_esim _ Site_ir); [|exact G|exact HS].
+  intros n' n R Gn S. apply in_range_local; assumption.
+Qed.
+
+Theorem pass_const_range_sound e : good cn e = true -> sites Site_cr e -> esim (pass_const_range e) e.
+Proof.
+  intros G HS. unfold pass_const_range. apply (map_post_esim _ Site_cr); [|exact G|exact HS].
+  intros n' n R Gn S. apply const_range_local; assumption.
+Qed.
+
+Theorem optimize_esim e e' :
+  sites Site_ia e ->
+  good cn (pass_in_array e) = true ->
+  const_fns_resolve ->
+  (forall e3, before_in_range fe env cn e = OOk e3 -> sites Site_ir e3) ->
+  (forall e4, before_const_range fe env cn e = OOk e4 -> sites Site_cr e4) ->
+  optimize fe env cn e = OOk e' -> esim e' e.
+Proof.
+  intros H1 G1 HR H4 H5 Hopt.
+  pose proof (pass_in_array_sound e H1) as E1.
+  unfold optimize, before_const_range, before_in_range in *.
+  destruct (pass_fold fe (pass_in_array e)) as [e2|] eqn:P2; cbn [obind] in *; [|discriminate].
+  pose proof (pass_fold_sound _ _ G1 P2) as E2.
+  pose proof (es_good _ _ _ _ _ _ (proj1 E2) G1) as G2.
+  destruct (pass_const_expr fe env cn e2) as [e3|] eqn:P3; cbn [obind] in *; [|discriminate].
+  pose proof (pass_const_expr_sound _ _ HR G2 P3) as E3.
+  pose proof (es_good _ _ _ _ _ _ (proj1 E3) G2) as G3.
+  pose proof (pass_in_range_sound e3 G3 (H4 e3 eq_refl)) as E4.
+  pose proof (es_good _ _ _ _ _ _ (proj1 E4) G3) as G4.
+  pose proof (pass_const_range_sound _ G4 (H5 _ eq_refl)) as E5.
+  inversion Hopt; subst.
+  eapply esim_trans; [exact E5|]. eapply esim_trans; [exact E4|]. eapply esim_trans; [exact E3|].
+  eapply esim_trans; [exact E2|exact E1].
+Qed.
+
+End Passes.
+
+(* ================================================================== the global theorem *)
+(* The property at full strength: for every expression the optimizer accepts, every environment,
+   closure context and run state, the optimized tree and the original one both fail or both
+   succeed with ~v-equal values and the same call log (up to the calls of ConstExpr functions). *)
+Definition obs_eq (cn : list string) (ro ru : result) : Prop :=
+  match ro, ru with
+  | Done v' s', Done v s => v' ~v v /\ strip cn (r_trace s') = strip cn (r_trace s)
+  | Stop _ _ _, Stop _ _ _ => True
+  | _, _ => False
+  end.
+
+Definition C02_transparent_full_statement : Prop :=
+  forall fe cfg env cn e e', optimize fe env cn e = OOk e' ->
+  forall ctx s, obs_eq cn (eval fe cfg env ctx e' s) (eval fe cfg env ctx e s).
+
+(* side conditions of the proved theorem (each one is the negation of a recorded finding, or a
+   statement that type annotations are sound at a rewrite site - the latter is property C03's) *)
+Record side_conditions (fe : fenv) (cfg : config) (env : value) (cn : list string) (e : expr) : Prop := mkSide {
+  (* at `x in [literals]` sites: x evaluates to an int / a string when it is typed int / string
+     (not to nil: finding C02-in-array-nil-type), the literals are typed int *)
+  sc_in_array : sites (Site_ia fe cfg env) e;
+  (* after the in_array pass: literals read by the optimizer are typed int (C02-fold-retyped-int /
+     -float, C02-constexpr-retyped-int), no array literal is folded to a typed slice
+     (C02-array-fold-type, C02-array-fold-deep-equal) *)
+  sc_good : good cn (pass_in_array e) = true;
+  sc_resolve : const_fns_resolve fe env cn;
+  (* at `x in a..b` sites (tree handed to the in_range pass): x neither calls nor allocates
+     (C02-in-range-double-eval) and evaluates to an integer of kind int/int64/uint* in range
+     (not nil: C02-in-range-nil-type; not int8/16/32: C02-in-range-narrow-int) *)
+  sc_in_range : forall e3, before_in_range fe env cn e = OOk e3 -> sites (Site_ir fe cfg env) e3;
+  (* descending constant ranges span less than 2^63 *)
+  sc_range : forall e4, before_const_range fe env cn e = OOk e4 -> sites (Site_cr fe cfg env) e4
+}.
+
+(* PROVED, all 22 node kinds: under the side conditions the optimized tree simulates the original
+   one up to the memory budget (rsim: equal values, equal failure class and location, equal call
+   log up to ConstExpr calls, accounted memory not larger; no claim when the UNOPTIMIZED run
+   exceeds the budget: finding C02-budget).  Not covered: array literals folded to typed slices
+   (excluded by sc_good; their local soundness up to ~v is fold_array_sound). *)
+Theorem C02_transparent_partial : forall fe cfg env cn e e',
+  side_conditions fe cfg env cn e -> optimize fe env cn e = OOk e' ->
+  forall ctx s, rsim vsim cn (eval fe cfg env ctx e' s) (eval fe cfg env ctx e s).
+Proof.
+  intros fe cfg env cn e e' [H1 H2 H3 H4 H5] Hopt ctx s.
+  apply rsim_weaken; [apply vsim_refl|].
+  apply (es_sem _ _ _ _ _ _ (proj1 (optimize_esim fe cfg env cn e e' H1 H2 H3 H4 H5 Hopt))). apply ssim_refl.
+Qed.
+
+Lemma rsim_obs_eq cn ro ru : rsim vsim cn ro ru -> (forall l s, ru <> Stop EBudget l s) -> obs_eq cn ro ru.
+Proof.
+  unfold rsim, obs_eq. destruct ru as [v s|e l s]; intros H NB.
+  - destruct H as (v' & s' & -> & Hv & [_ Ht]). auto.
+  - destruct H as [->|(s' & -> & _)]; [exfalso; eapply NB; reflexivity|exact I].
+Qed.
+
+Corollary C02_transparent_obs : forall fe cfg env cn e e',
+  side_conditions fe cfg env cn e -> optimize fe env cn e = OOk e' ->
+  forall ctx s, (forall l s1, eval fe cfg env ctx e s <> Stop EBudget l s1) ->
+  obs_eq cn (eval fe cfg env ctx e' s) (eval fe cfg env ctx e s).
+Proof. intros. apply rsim_obs_eq; [eapply C02_transparent_partial; eauto|assumption]. Qed.
+
+(* ---------------- remaining per-rewrite lemmas in expression form ---------------- *)
+Section Rewrites2.
+Variable fe : fenv.
+Variable cfg : config.
+Variable env : value.
+Notation ev := (eval fe cfg env).
+
+(* array literal of int (resp. string) literals -> typed slice constant: same elements (~v), the
+   folded constant is not charged to the memory budget *)
+Lemma fold_array_sound : forall a es vs ctx s,
+  is_nil_list es = false -> forallb lit_child_ok es = true ->
+  (exists zs, all_ints es = Some zs /\ vs = map vint zs) \/ (all_ints es = None /\ exists ss, all_strs es = Some ss /\ vs = map VStr ss) ->
+  exists t, ev ctx (fst (fold_v (f_pow fe) (EArray a es))) s = Done (VArr t vs) s /\
+  (ev ctx (EArray a es) s = Stop EBudget (aloc a) s \/
+   ev ctx (EArray a es) s = Done (VArr TIface vs) (mkRS (r_mem s + Z.of_nat (List.length vs)) (r_trace s))) /\
+  VArr t vs ~v VArr TIface vs.
+Proof.
+  intros a es vs ctx s Hn Hl Hc.
+  assert (Hv : Forall2 (evals_to fe cfg env) es vs).
+  { destruct Hc as [(zs & Ai & ->)|(_ & ss & As & ->)]; apply const_args_vals; auto using all_ints_const_args, all_strs_const_args. }
+  assert (Hu : ev ctx (EArray a es) s = Stop EBudget (aloc a) s \/
+               ev ctx (EArray a es) s = Done (VArr TIface vs) (mkRS (r_mem s + Z.of_nat (List.length vs)) (r_trace s))).
+  { rewrite ev_array, (ev_list_vals fe cfg env ctx _ _ Hv). unfold alloc. destruct (c_limit cfg <=? _); auto. }
+  assert (Hs : forall t, VArr t vs ~v VArr TIface vs).
+  { intros t. unfold vsim. cbn. clear. induction vs as [|x r IH]; [reflexivity|]. rewrite vsimb_refl, IH. reflexivity. }
+  unfold fold_v, fold_array. rewrite Hn.
+  destruct Hc as [(zs & Ai & ->)|(An & ss & As & ->)].
+  - rewrite Ai. cbn [fst patch set_ann ann_of]. exists (TNum KInt). rewrite ev_const. auto.
+  - rewrite An, As. cbn [fst patch set_ann ann_of]. exists TString. rewrite ev_const. auto.
+Qed.
+
+Lemma good_range_redex a a1 lo a2 hi :
+  akind a1 = RKNum KInt -> akind a2 = RKNum KInt -> good [] (EBinary a BRange (EInt a1 lo) (EInt a2 hi)) = true.
+Proof.
+  intros K1 K2. apply good_intro.
+  - unfold good_node, wt_node, lit_child_ok, kint, kind_of. cbn. rewrite K1, K2. reflexivity.
+  - reflexivity.
+  - intros c [<-|[<-|[]]]; reflexivity.
+Qed.
+
+(* a..b with literal bounds -> the materialised []int (size window 1 .. 10^6), never charged to the budget *)
+Lemma const_range_sound : forall a a1 lo a2 hi ctx s,
+  akind a1 = RKNum KInt -> akind a2 = RKNum KInt -> - 2 ^ 63 <= iv hi - iv lo ->
+  rsim eq [] (ev ctx (fst (const_range_v (EBinary a BRange (EInt a1 lo) (EInt a2 hi)))) s)
+             (ev ctx (EBinary a BRange (EInt a1 lo) (EInt a2 hi)) s).
+Proof.
+  intros a a1 lo a2 hi ctx s K1 K2 Sp.
+  set (n := EBinary a BRange (EInt a1 lo) (EInt a2 hi)).
+  assert (R : rel1 fe cfg env [] n n).
+  { exists (children n). split; [reflexivity|]. unfold n. cbn [children].
+    constructor; [apply esim_refl|constructor; [apply esim_refl|constructor]]. }
+  assert (HS : Site_cr fe cfg env n).
+  { intros a0 n1 n2 E ctx0 s0 lo0 s1 hi0 s2 E1 E2. unfold n in E. inversion E; subst.
+    rewrite ev_int, (int_const_int a1 KInt lo K1 eq_refl) in E1. rewrite ev_int, (int_const_int a2 KInt hi K2 eq_refl) in E2.
+    inversion E1; inversion E2; subst. exact Sp. }
+  pose proof (const_range_local fe cfg env [] n n R (good_range_redex a a1 lo a2 hi K1 K2) HS) as L.
+  apply (es_sem _ _ _ _ _ _ (proj1 L)). apply ssim_refl.
+Qed.
+
+End Rewrites2.
+
+(* ================================================================== Part 7: known findings *)
+(* A small environment for the witnesses: Inc(int) int, GI8(int8) int8, GF64(float64) float64,
+   GA([]interface{}) int.  Trees carry the annotations checker.Check gives them. *)
+Local Open Scope string_scope.
+Definition w_sig (id : string) : option fsig :=
+  if String.eqb id "Inc" then Some (mkSig [TNum KInt] false 1 false)
+  else if String.eqb id "GI8" then Some (mkSig [TNum KInt8] false 1 false)
+  else if String.eqb id "GF64" then Some (mkSig [TNum KF64] false 1 false)
+  else if String.eqb id "GA" then Some (mkSig [TSlice TIface] false 1 false)
+  else None.
+Definition w_run (id : string) (recv : value) (args : list value) : outcome value :=
+  if String.eqb id "Inc" then match args with [VNum (NInt KInt a)] => Ok (vint (wrap KInt (a + 1))) | _ => Fail EOther end
+  else if String.eqb id "GA" then match args with [VArr _ l] => Ok (vint (Z.of_nat (List.length l))) | _ => Fail EOther end
+  else match args with [x] => Ok x | _ => Fail EOther end.
+Definition w_fe : fenv := mkFenv w_sig w_run (fun _ _ _ => None) (fun _ _ => None) (fun _ _ => nan).
+Definition w_func (n : string) : string * value := (n, VFunc n (TFunc [] false [])).
+Definition w_env : value :=
+  VStruct "Env" true [("I8", VNum (NInt KInt8 44)); ("N", VNil); ("AI", VArr (TNum KInt) [vint 1; vint 2]);
+                      w_func "Inc"; w_func "GI8"; w_func "GF64"; w_func "GA"].
+Definition w_cfg (limit : Z) : config := mkCfg false limit.
+
+Definition ki : rkind := RKNum KInt.
+Definition A (k : rkind) : ann := mkAnn (1, 0) k.
+Definition lit (z : Z) : expr := EInt (A ki) z.
+Definition w_run_pair (limit : Z) (cn : list string) (e : expr) : ores * result * result :=
+  let o := optimize w_fe w_env cn e in
+  (o, match o with OOk e' => eval w_fe (w_cfg limit) w_env [] e' rs0 | OFail _ => Stop EOther noloc rs0 end,
+   eval w_fe (w_cfg limit) w_env [] e rs0).
+
+Definition obs_eqb (ro ru : result) : bool :=
+  match ro, ru with
+  | Done v' s', Done v s => vsimb v' v && Nat.eqb (List.length (r_trace s')) (List.length (r_trace s))
+  | Stop _ _ _, Stop _ _ _ => true
+  | _, _ => false
+  end.
+
+Lemma obs_eq_b ro ru : obs_eq [] ro ru -> obs_eqb ro ru = true.
+Proof.
+  unfold obs_eq, obs_eqb. destruct ro, ru; auto. intros [Hv Ht]. rewrite Hv.
+  assert (S : forall t, strip [] t = t) by (induction t as [|x r IH]; [reflexivity|]; change (strip [] (x :: r)) with (x :: strip [] r); f_equal; exact IH).
+  rewrite !S in Ht. rewrite Ht, Nat.eqb_refl. reflexivity.
+Qed.
+
+(* generic refutation: one expression on which the optimized and the unoptimized tree are observably different *)
+Lemma refute_by (limit : Z) (e : expr) :
+  (match w_run_pair limit [] e with (OOk _, ro, ru) => negb (obs_eqb ro ru) | _ => false end) = true ->
+  ~ C02_transparent_full_statement.
+Proof.
+  intros W F. unfold w_run_pair in W. destruct (optimize w_fe w_env [] e) as [e'|] eqn:O; [|discriminate].
+  pose proof (F w_fe (w_cfg limit) w_env [] e e' O [] rs0) as H. apply obs_eq_b in H. rewrite H in W. discriminate.
+Qed.
+
+(* (1) C02-budget: folded constants are not charged.  len(1..20) under a budget of 10 elements. *)
+Definition K_budget (e : expr) : bool :=
+  existsb (fun n => is_range n || match n with EArray _ _ => true | _ => false end) (subterms e).
+Definition w_budget : expr := EBuiltin (A ki) BiLen [EBinary (A RKSlice) BRange (lit 1) (lit 20)].
+Theorem C02_budget_refuted : K_budget w_budget = true /\ ~ C02_transparent_full_statement.
+Proof. split; [reflexivity|]. apply (refute_by 10 w_budget). vm_compute. reflexivity. Qed.
+
+(* (2) C02-array-fold-type: GA([1, 2]) with GA func([]interface{}) int *)
+Definition K_array_fold (e : expr) : bool := existsb foldable_array (subterms e).
+Definition w_array_type : expr := EFunction (A ki) "GA" [EArray (A RKSlice) [lit 1; lit 2]] false.
+Theorem C02_array_fold_type_refuted : K_array_fold w_array_type = true /\ ~ C02_transparent_full_statement.
+Proof. split; [reflexivity|]. apply (refute_by 1000 w_array_type). vm_compute. reflexivity. Qed.
+
+(* (7) C02-array-fold-deep-equal: {a: [1, 2]} == {a: AI} *)
+Definition w_array_deep : expr :=
+  EBinary (A RKBool) BEq
+    (EMap (A RKMap) [EPair (A RKInvalid) (EStr (A RKString) "a") (EArray (A RKSlice) [lit 1; lit 2])])
+    (EMap (A RKMap) [EPair (A RKInvalid) (EStr (A RKString) "a") (EIdent (A RKSlice) "AI" false)]).
+Theorem C02_array_fold_deep_equal_refuted : K_array_fold w_array_deep = true /\ ~ C02_transparent_full_statement.
+Proof. split; [reflexivity|]. apply (refute_by 1000 w_array_deep). vm_compute. reflexivity. Qed.
+
+(* (3) C02-in-range-double-eval: Inc(1) in 1..3 calls Inc twice *)
+Definition in_site (p : expr -> bool) (n : expr) : bool :=
+  match n with EBinary _ op l r => is_in_op op && is_range r && p l | _ => false end.
+Definition K_in_range_double_eval (e : expr) : bool := existsb (in_site (fun l => negb (simple l))) (subterms e).
+Definition w_double : expr :=
+  EBinary (A RKBool) BIn (EFunction (A ki) "Inc" [lit 1] false) (EBinary (A RKSlice) BRange (lit 1) (lit 3)).
+Theorem C02_in_range_double_eval_refuted : K_in_range_double_eval w_double = true /\ ~ C02_transparent_full_statement.
+Proof. split; [reflexivity|]. apply (refute_by 1000 w_double). vm_compute. reflexivity. Qed.
+
+(* (4) C02-in-range-nil-type: nil in 1..3 *)
+Definition K_in_range_nil_type (e : expr) : bool :=
+  existsb (in_site (fun l => rkind_eqb (kind_of l) RKInvalid)) (subterms e).
+Definition w_nil_range : expr := EBinary (A RKBool) BIn (ENil (A RKInvalid)) (EBinary (A RKSlice) BRange (lit 1) (lit 3)).
+Theorem C02_in_range_nil_type_refuted : K_in_range_nil_type w_nil_range = true /\ ~ C02_transparent_full_statement.
+Proof. split; [reflexivity|]. apply (refute_by 1000 w_nil_range). vm_compute. reflexivity. Qed.
+
+(* (8) C02-in-range-narrow-int: I8 in 100..300 with I8 = 44 (300 wraps to int8 44 under C14-rank) *)
+Definition K_in_range_narrow (e : expr) : bool :=
+  existsb (in_site (fun l => match kind_of l with RKNum (KInt8 | KInt16 | KInt32) => true | _ => false end)) (subterms e).
+Definition w_narrow : expr :=
+  EBinary (A RKBool) BIn (EIdent (A (RKNum KInt8)) "I8" false) (EBinary (A RKSlice) BRange (lit 100) (lit 300)).
+Theorem C02_in_range_narrow_int_refuted : K_in_range_narrow w_narrow = true /\ ~ C02_transparent_full_statement.
+Proof. split; [reflexivity|]. apply (refute_by 1000 w_narrow). vm_compute. reflexivity. Qed.
+
+(* (9) C02-in-array-nil-type: an int-typed left operand that is nil at run time (P?.X with P nil) *)
+Definition w_nil_array : expr := EBinary (A RKBool) BIn (EIdent (A ki) "N" false) (EArray (A RKSlice) [lit 1]).
+Theorem C02_in_array_nil_type_refuted : ~ C02_transparent_full_statement.
+Proof. apply (refute_by 1000 w_nil_array). vm_compute. reflexivity. Qed.
+
+(* (5) (6) C02-fold-retyped-int / -float: literals retyped to the parameter type by the checker *)
+Definition K_retyped (cn : list string) (e : expr) : bool :=
+  negb (allsub (fun n => wt_node n && cx_node cn n) e).
+Definition w_retyped_int : expr :=
+  EFunction (A (RKNum KInt8)) "GI8" [EBinary (A ki) BDiv (EInt (A (RKNum KInt8)) 200) (EInt (A (RKNum KInt8)) 3)] false.
+Theorem C02_fold_retyped_int_refuted : K_retyped [] w_retyped_int = true /\ ~ C02_transparent_full_statement.
+Proof. split; [reflexivity|]. apply (refute_by 1000 w_retyped_int). vm_compute. reflexivity. Qed.
+
+Definition w_retyped_float : expr :=
+  EFunction (A (RKNum KF64)) "GF64"
+    [EBinary (A ki) BAdd (EBinary (A ki) BAdd (EInt (A (RKNum KF64)) 9007199254740992) (EInt (A (RKNum KF64)) 1))
+                         (EInt (A (RKNum KF64)) 1)] false.
+Theorem C02_fold_retyped_float_refuted : K_retyped [] w_retyped_float = true /\ ~ C02_transparent_full_statement.
+Proof. split; [reflexivity|]. apply (refute_by 1000 w_retyped_float). vm_compute. reflexivity. Qed.
+
+(* ---------------- non-vacuity: an expression in which four rewrites fire meets all side conditions ---------------- *)
+Definition x_env : value := VStruct "Env" true [("I", vint 3); w_func "Inc"].
+(* (I in 1..(1 + 2)) and (len(1..4) == 2 * 2) and (I in [3, 5]) *)
+Definition x_expr : expr :=
+  EBinary (A RKBool) BAndWord
+    (EBinary (A RKBool) BAndWord
+      (EBinary (A RKBool) BIn (EIdent (A ki) "I" false)
+         (EBinary (A RKSlice) BRange (lit 1) (EBinary (A ki) BAdd (lit 1) (lit 2))))
+      (EBinary (A RKBool) BEq (EBuiltin (A ki) BiLen [EBinary (A RKSlice) BRange (lit 1) (lit 4)])
+         (EBinary (A ki) BMul (lit 2) (lit 2))))
+    (EBinary (A RKBool) BIn (EIdent (A ki) "I" false) (EArray (A RKSlice) [lit 3; lit 5])).
+
+Ltac site_cases :=
+  apply Forall_forall; intros n Hin; vm_compute in Hin;
+  repeat (destruct Hin as [<-|Hin]); try contradiction.
+
+Lemma x_ident_val cfg ctx s v t : eval w_fe cfg x_env ctx (EIdent (A ki) "I" false) s = Done v t -> c_mapenv cfg = false -> v = vint 3.
+Proof. intros E M. rewrite ev_ident in E. unfold fetch_ident in E. rewrite M in E. cbn in E. inversion E. reflexivity. Qed.
+
+Example x_side_conditions : side_conditions w_fe (w_cfg 1000) x_env [] x_expr.
+Proof.
+  constructor.
+  - site_cases; intros a op n1 n2 E Hop; inversion E; subst; try discriminate Hop; (split; [|intros; discriminate || (match goal with H : _ = EArray _ _ |- _ => inversion H; subst end; repeat match goal with H : In _ _ |- _ => destruct H as [<-|H] end; try contradiction; reflexivity)]).
+    + intros ctx s v t Ev. apply x_ident_val in Ev; [|reflexivity]. subst. split; [eauto|discriminate].
+    + intros ctx s v t Ev. apply x_ident_val in Ev; [|reflexivity]. subst. split; [eauto|discriminate].
+  - vm_compute. reflexivity.
+  - intros name H. discriminate.
+  - intros e3 H. vm_compute in H. inversion H; subst. clear H.
+    site_cases; intros a op n1 n2 E Hop Hr Hk; inversion E; subst; try discriminate Hop; try discriminate Hr.
+    split; [reflexivity|]. intros ctx s v s1 Ev. apply x_ident_val in Ev; [|reflexivity]. subst.
+    exists KInt, 3. repeat split; reflexivity.
+  - intros e4 H. vm_compute in H. inversion H; subst. clear H.
+    site_cases; intros a n1 n2 E ctx s lo s1 hi s2 E1 E2; inversion E; subst.
+    cbn in E1. inversion E1; subst. cbn in E2. inversion E2; subst. vm_compute. discriminate.
+Qed.
+
+Example x_optimized :
+  optimize w_fe x_env [] x_expr =
+  OOk (EBinary (A RKBool) BAndWord
+        (EBinary (A RKBool) BAndWord
+          (EBinary (A RKBool) BAndWord (EBinary ann0 BGe (EIdent (A ki) "I" false) (lit 1)) (EBinary ann0 BLe (EIdent (A ki) "I" false) (lit 3)))
+          (EBinary (A RKBool) BEq (EBuiltin (A ki) BiLen [EConst (A RKSlice) (VArr (TNum KInt) [vint 1; vint 2; vint 3; vint 4])]) (lit 4)))
+        (EBinary (A RKBool) BIn (EIdent (A ki) "I" false) (EConst ann0 (int_set [3; 5])))).
+Proof. vm_compute. reflexivity. Qed.
+
+(* ================================================================== Part 6: what the optimizer rejects *)
+(* constant integer expressions: the literal (static kind, value) the fold pass reduces them to *)
+Fixpoint cint (e : expr) : option (rkind * Z) :=
+  match e with
+  | EInt a z => Some (akind a, iv z)
+  | EUnary _ UMinus x => match cint x with Some (k, z) => Some (k, wrap KInt (- z)) | None => None end
+  | EUnary _ UPlus x => cint x
+  | EBinary a op l r =>
+      match cint l, cint r with
+      | Some (k1, x), Some (k2, y) =>
+          match op with
+          | BAdd => Some (k1, wrap KInt (x + y))
+          | BSub => Some (k1, wrap KInt (x - y))
+          | BMul => Some (k1, wrap KInt (x * y))
+          | BDiv => if is_float_kind k1 || is_float_kind k2 then None else if y =? 0 then None else Some (k1, wrap KInt (Z.quot x y))
+          | BMod => if y =? 0 then None else Some (akind a, wrap KInt (Z.rem x y))
+          | _ => None
+          end
+      | _, _ => None
+      end
+  | _ => None
+  end.
+
+(* a constant integer division or modulo by zero *)
+Definition dz_node (n : expr) : bool :=
+  match n with
+  | EBinary a op l r =>
+      match op, cint l, cint r with
+      | BDiv, Some (k1, _), Some (k2, y) => negb (is_float_kind k1 || is_float_kind k2) && (y =? 0)
+      | BMod, Some _, Some (_, y) => y =? 0
+      | _, _, _ => false
+      end
+  | _ => false
+  end.
+Definition has_dz (e : expr) : bool := existsb dz_node (subterms e).
+
+Lemma has_dz_node e : has_dz e = dz_node e || existsb has_dz (children e).
+Proof.
+  unfold has_dz. rewrite subterms_children. cbn [existsb]. f_equal.
+  induction (children e) as [|c r IH]; [reflexivity|]. cbn [flat_map existsb]. rewrite existsb_app, IH. reflexivity.
+Qed.
+
+Definition err_of (r : expr * acc) : option loc := snd (snd r).
+
+Lemma err_join a b : snd (join a b) = match snd b with Some l => Some l | None => snd a end.
+Proof. reflexivity. Qed.
+
+Lemma map_post_list_err f l :
+  snd (snd (map_post_list f l)) = None <-> forall c, In c l -> err_of (map_post f c) = None.
+Proof.
+  induction l as [|x r IH]; cbn [map_post_list]; [split; [intros _ c []|reflexivity]|].
+  unfold err_of in *. destruct (map_post f x) as [x' a1]. destruct (map_post_list f r) as [r' a2]. cbn [snd] in *.
+  rewrite err_join. split.
+  - intros H c [<-|Hc]; destruct (snd a2) eqn:E2; try discriminate; [exact H|]. apply (proj1 IH eq_refl c Hc).
+  - intros H. assert (H2 : snd a2 = None) by (apply IH; intros c Hc; apply H; right; exact Hc). rewrite H2.
+    apply (H x). left; reflexivity.
+Qed.
+
+Lemma map_post_err (vis : visitor) e :
+  err_of (map_post vis e) = None <->
+  (forall c, In c (children e) -> err_of (map_post vis c) = None) /\
+  err_of (vis (rebuild e (map (fun c => fst (map_post vis c)) (children e)))) = None.
+Proof.
+  unfold err_of.
+  destruct e; cbn [map_post children map rebuild]; rewrite ?mp_list_eq;
+  try (split; [intros H; split; [intros c []|exact H]|intros [_ H]; exact H]);
+  try (destruct from as [fr|], to as [tt|]; cbn [opt_list app map rebuild]);
+  repeat match goal with
+       | |- context[map_post_list vis ?l] =>
+           let H := fresh "HL" in let H' := fresh "HE" in
+           pose proof (map_post_list_fst vis l) as H; pose proof (map_post_list_err vis l) as H';
+           destruct (map_post_list vis l) as [? ?]; cbn [fst snd] in H, H'; subst
+       | |- context[let '(_, _) := map_post vis ?x in _] => destruct (map_post vis x) as [? [? ?]] eqn:?; cbn [fst snd]
+       | |- context[let '(_, _) := vis ?x in _] => destruct (vis x) as [? [? ?]]; cbn [fst snd]
+       end; cbn [join fst snd];
+  repeat match goal with |- context[match ?o with Some _ => _ | None => _ end] => destruct o end;
+  unfold err_of in *; cbn [snd] in *;
+  (split; [intros H; try discriminate; split; [|reflexivity]; intros c Hc; cbn in Hc;
+           repeat (destruct Hc as [<-|Hc]; [try reflexivity; try (unfold err_of; cbn; congruence)|]); try contradiction;
+           try (match goal with HE : _ <-> _ |- _ => apply (proj1 HE); [reflexivity|assumption] end)
+         |intros [Hc Hn]; try reflexivity; try discriminate;
+          try (exfalso; match goal with E : map_post vis ?x = (_, (_, Some _)) |- _ =>
+                 specialize (Hc x); rewrite E in Hc; cbn in Hc; (assert (T : Some _ = None) by (apply Hc; cbn; auto)); discriminate end);
+          try (exfalso; match goal with HE : Some _ = None <-> _ |- _ =>
+                 assert (T : Some _ = None) by (apply (proj2 HE); intros c0 Hc0; apply Hc; cbn; auto); discriminate end)]).
 Qed.
